@@ -211,10 +211,13 @@ def isWs (c : Nat) : Bool :=
   (0x2000 ≤ c && c ≤ 0x200A) || c == 0x2028 || c == 0x2029 || c == 0x202F || c == 0x205F ||
   c == 0x3000
 
-/-- `char::is_alphanumeric() || '_'` restricted to ASCII (non-ASCII letters are not recognised
-by the model; the generators stay inside ASCII for field prefixes) -/
+/-- `char::is_alphanumeric() || '_'` for ASCII, Latin-1 and Latin Extended-A/B (U+0000–U+02C1);
+letters beyond that range are not recognised by the model (the generators stay below) -/
 def isFieldChar (c : Nat) : Bool :=
-  (48 ≤ c && c ≤ 57) || (65 ≤ c && c ≤ 90) || (97 ≤ c && c ≤ 122) || c == 95
+  (48 ≤ c && c ≤ 57) || (65 ≤ c && c ≤ 90) || (97 ≤ c && c ≤ 122) || c == 95 ||
+  c == 0xAA || c == 0xB2 || c == 0xB3 || c == 0xB5 || c == 0xB9 || c == 0xBA ||
+  (0xBC ≤ c && c ≤ 0xBE) || (0xC0 ≤ c && c ≤ 0xD6) || (0xD8 ≤ c && c ≤ 0xF6) ||
+  (0xF8 ≤ c && c ≤ 0x2C1)
 
 /-- split at every occurrence of `sep` (always at least one piece) -/
 def splitOn (sep : Nat) : Str → List Str
